@@ -1,19 +1,36 @@
-"""C12 — CSR banks give software exact, side-effect-free register semantics."""
-from explore import Job, run_jobs, generic_search
-from csrlib import Reg, Field, BankInst, STORAGE, STATUS, RAW
+"""C12 — CSR banks give software exact, side-effect-free register semantics.
 
-FMT = "adr, re, we, dat_w, (dev_we_k, dev_dat_k) per register"
+Correspondence:
+  A  exhaustive co-exploration: single real `CSRBank`s (8-bit bus: sizes from {1,3,8,9,17}; 32-bit bus: sizes from
+     {1,32,33}; both orderings; +/- atomic, +/- write_from_dev, fields incl. pulse), `csr_bus.SRAM` windows (4x8
+     with/without paging, read-only, 2x16 with sub-word staging, odd depth), small real `CSRBankArray`s behind
+     `Interconnect` / `InterconnectShared` (two banks, paged memory window with its page register in a bank);
+  B  seeded lock-step co-simulation of realistic register sets harvested from the repo cores (Timer, UART,
+     SPIMaster, Watchdog) rebuilt detached and run through the real `CSRBankArray` (8/32-bit, both orderings),
+     plus random register sets and large memory windows;
+  C  Python-level differential: `_sort_gathered_items` / `AutoCSR.get_csrs(sort=True)`, `CSRFieldAggregate`
+     (offset resolution / overlap rejection), simple-CSR layout of `GenericBank`.
+Monitors (independent of the Lean model): `csrlib.RegFileMonitor`, `csrlib.SramMonitor`, and the direct
+property checks inside the mode-C loops.
+"""
+import random
+from explore import Job, run_jobs, generic_search, replay_with_monitor
+from csrlib import (Reg, Field, BankInst, SramInst, ArrayInst, STORAGE, STATUS, RAW, build_reg, spec_of, lean_regs,
+                    bus_write)
+
+FMT = "adr, re, we, dat_w [per master], then (dev_we_k, dev_dat_k) per register; SRAM: adr, re, we, dat_w, page"
+FINDING_ATOMIC_LITTLE = "C12-atomic-little-ordering"
 
 
-def S(size, **kw):
+def S(size=1, **kw):
     return Reg(STORAGE, size, **kw)
 
 
-def T(size, **kw):
+def T(size=1, **kw):
     return Reg(STATUS, size, **kw)
 
 
-def R(size, **kw):
+def R(size=1, **kw):
     return Reg(RAW, size, **kw)
 
 
@@ -31,33 +48,402 @@ def bank_sets_8():
         ("st8+st8a+raw1", [S(8), S(8, atomic=True), R(1)]),
         ("fields", [S(1, fields=[Field("go", 1, pulse=True), Field("mode", 2, reset=2), Field("hi", 3, offset=8)]),
                     T(1, fields=[Field("a", 1), Field("b", 2, offset=2)])]),
+        ("st3+st9a+st1", [S(3, reset=5), S(9, atomic=True, wfd=True), S(1)]),
     ]
 
 
-def jobs(tier):
+def bank_sets_32():
+    return [
+        ("st33", [S(33)]),
+        ("st33a_wfd", [S(33, atomic=True, wfd=True)]),
+        ("st32+sta33", [S(32, reset=0xDEADBEEF), T(33)]),
+        ("st1+raw32+sta1", [S(1), R(32), T(1)]),
+        ("st33a+st1", [S(33, atomic=True), S(1)]),
+    ]
+
+
+def is_atomic_little(ordering, regs, bw):
+    return ordering == "little" and any(r.kind == STORAGE and r.atomic and r.eff_size() > bw for r in regs)
+
+
+def harvest():
+    """Register sets of real cores (specs only; rebuilt detached from the cores' logic)."""
+    from litex.soc.cores.timer import Timer
+    from litex.soc.cores.uart import UART
+    from litex.soc.cores.spi import SPIMaster
+    from litex.soc.cores.watchdog import Watchdog
+    out = []
+    for nm, core in (("timer", Timer()), ("uart", UART(phy=None)), ("spi", SPIMaster(None, 8, 100e6, 1e6)),
+                     ("wdt", Watchdog())):
+        regs = [spec_of(c) for c in core.get_csrs()]
+        for r in regs:
+            r.name = nm + "_" + r.name
+        out.append((nm, regs))
+    return out
+
+
+def random_regs(rng, bw, n):
+    regs = []
+    for _ in range(n):
+        k = rng.choice((STORAGE, STORAGE, STATUS, RAW))
+        if k == RAW:
+            regs.append(R(rng.randint(1, bw)))
+        elif k == STATUS:
+            regs.append(T(rng.choice((1, 3, bw - 1, bw, bw + 1, 2 * bw + 1, 64)), wfd=rng.random() < 0.3))
+        else:
+            size = rng.choice((1, 3, bw - 1, bw, bw + 1, 2 * bw, 2 * bw + 1, 3 * bw + 2, 64))
+            regs.append(S(size, reset=rng.getrandbits(size), atomic=rng.random() < 0.5, wfd=rng.random() < 0.4))
+    return regs
+
+
+def jobs(tier, seed=0):
     quick = tier == "quick"
     J = []
     A = lambda mk, **kw: J.append(Job("A", mk, max_states=20000 if quick else 400000, **kw))
-    B = lambda mk, **kw: J.append(Job("B", mk, cycles=3000 if quick else 30000, runs=1 if quick else 4, **kw))
+    B = lambda mk, **kw: J.append(Job("B", mk, cycles=2500 if quick else 20000, runs=1 if quick else 4, **kw))
     for ordering in ("big", "little"):
         for nm, regs in bank_sets_8():
-            atomic_little = ordering == "little" and any(r.atomic and r.eff_size() > 8 for r in regs)
-            A(lambda nm=nm, regs=regs, ordering=ordering, al=atomic_little:
+            A(lambda nm=nm, regs=regs, ordering=ordering:
               BankInst("bank8/%s/%s" % (ordering, nm), regs, bw=8, ordering=ordering, paging=0x20, address=1,
-                       monitor_atomic=not al))
+                       monitor_atomic=not is_atomic_little(ordering, regs, 8)))
+        for nm, regs in bank_sets_32():
+            A(lambda nm=nm, regs=regs, ordering=ordering:
+              BankInst("bank32/%s/%s" % (ordering, nm), regs, bw=32, ordering=ordering, paging=0x20, address=2,
+                       data_values=(0xA5A5A5A5,), dev_values=(0x1C3C3C3C3,),
+                       monitor_atomic=not is_atomic_little(ordering, regs, 32)))
+    # bank whose words exactly fill / overflow its page (paging 8 -> 2 words per bank): the third word is unreachable
+    A(lambda: BankInst("bank8/big/overflow-page", [S(17)], bw=8, ordering="big", paging=8, address=1))
+    A(lambda: BankInst("bank8/big/default-paging", [S(9), T(1)], bw=8, ordering="big", paging=0x800, address=3,
+                       extra_adrs=(0x1ff + (3 << 9), 0x3fff)))
+    # memory windows
+    A(lambda: SramInst("sram/4x8", 8, 4, paging=0x800))
+    A(lambda: SramInst("sram/4x8/paged", 8, 4, paging=8))
+    A(lambda: SramInst("sram/4x8/ro", 8, 4, paging=0x20, read_only=True, init=[1, 2, 3, 4]))
+    A(lambda: SramInst("sram/2x16-on-8/staging", 16, 2, paging=0x20, init=[0x1234]))
+    A(lambda: SramInst("sram/3x8/odd-depth", 8, 3, paging=0x20, init=[1, 2, 3]))
+    A(lambda: SramInst("sram/4x4-on-8/narrow", 4, 4, paging=0x20))
+    # bank arrays (tiny: the array netlist steps ~1k cycles/s)
+    for ordering in ("big", "little"):
+        A(lambda ordering=ordering:
+          ArrayInst("array/%s/2banks" % ordering, [("a", [S(9, atomic=True)], []), ("b", [T(3), S(1, wfd=True)], [])],
+                    {"a": 0, "b": 2}, {}, bw=8, ordering=ordering, paging=0x20, data_values=(0xA5,)))
+    A(lambda: ArrayInst("array/big/bank+paged-mem", [("a", [S(1)], [(8, 4, False, None)])],
+                        {"a": 1}, {("a", 0): 0}, bw=8, ordering="big", paging=8, data_values=(0xA5,)))
+    A(lambda: ArrayInst("array/big/shared-2masters", [("a", [S(3)], []), ("b", [T(3)], [])],
+                        {"a": 1, "b": 2}, {}, bw=8, ordering="big", paging=0x20, nmasters=2, data_values=(0xA5,)))
+    # ---- B
+    hv = harvest()
+    for bw in (8, 32):
+        for ordering in ("big", "little"):
+            B(lambda bw=bw, ordering=ordering:
+              ArrayInst("arrayB/%d/%s/timer+uart+spi+wdt" % (bw, ordering),
+                        [(nm, regs, [(32, 16, False, None)] if nm == "uart" else []) for nm, regs in hv],
+                        {"timer": 0, "uart": 1, "spi": 2, "wdt": 5}, {("uart", 0): 3},
+                        bw=bw, ordering=ordering, paging=0x800, nmasters=1 if ordering == "big" else 2))
+    rng = random.Random(seed * 31 + 5)
+    for k in range(4 if quick else 12):
+        bw = rng.choice((8, 8, 16, 32))
+        ordering = rng.choice(("big", "little"))
+        regs = random_regs(rng, bw, rng.randint(1, 6))
+        address = rng.randrange(0, 31)
+        B(lambda k=k, bw=bw, ordering=ordering, regs=regs, address=address:
+          BankInst("bankB/%d/%s/random%d" % (bw, ordering, k), regs, bw=bw, ordering=ordering, paging=0x800,
+                   address=address, monitor_atomic=not is_atomic_little(ordering, regs, bw)))
+    B(lambda: SramInst("sramB/64x32-on-32", 32, 64, bw=32, paging=0x80))
+    B(lambda: SramInst("sramB/64x32-on-8/paged", 32, 64, bw=8, paging=0x80))
+    B(lambda: SramInst("sramB/5x4-on-8/paged-odd", 4, 5, bw=8, paging=0x10))
+    B(lambda: SramInst("sramB/1024x32-on-32/paged", 32, 1024, bw=32, paging=0x800, init=list(range(7, 300, 3))))
     return J
 
 
+# ---------------------------------------------------------------------------------------------------------
+# mode C: Python-level code
+
+def _real_sort(fixed):
+    """Run the real `_sort_gathered_items` on fresh CSR objects; returns ('ok', slots) | ('conflict',) | ('indexerror',)"""
+    from litex.soc.interconnect import csr
+    items = [csr.CSR(1, name="i%d" % k, n=n) for k, n in enumerate(fixed)]
+    idx = {id(it): k for k, it in enumerate(items)}
+    try:
+        res = csr._sort_gathered_items(list(items))
+    except ValueError:
+        return ("conflict",)
+    except IndexError:
+        return ("indexerror",)
+    return ("ok", [idx.get(id(x)) for x in res], [getattr(x, "name", None) for x in res])
+
+
+def _sort_oracle(fixed, slots):
+    """Property: a permutation (every item exactly once, other slots reserved) with fixed items at their n and
+    variable items in their original order."""
+    seen = [s for s in slots if s is not None]
+    if sorted(seen) != list(range(len(fixed))):
+        return "result is not a permutation of the items: %r" % (slots,)
+    for k, n in enumerate(fixed):
+        if n is not None and (n >= len(slots) or slots[n] != k):
+            return "fixed item %d is not at location %d: %r" % (k, n, slots)
+    var = [s for s in seen if fixed[s] is None]
+    if var != sorted(var):
+        return "automatic items reordered: %r" % (slots,)
+    return None
+
+
+def correspond_sort(ctx, out, n_cases):
+    rng = ctx.rng
+    cases = []
+    # exhaustive: all lists of length <= 3 over {None,0,1,2,3,4}
+    import itertools
+    vals = [None, 0, 1, 2, 3, 4]
+    for L in range(0, 4):
+        cases += [list(c) for c in itertools.product(vals, repeat=L)]
+    n_exh = len(cases)
+    for _ in range(n_cases):
+        L = rng.randint(1, 8)
+        cases.append([rng.choice([None, None, rng.randint(0, L + 3)]) for _ in range(L)])
+    lines = ["sort " + " ".join(str(0 if n is None else n + 1) for n in c) for c in cases]
+    ans = ctx.lean.call_batch(lines)
+    nontriv = 0
+    for c, a in zip(cases, ans):
+        real = _real_sort(c)
+        if real[0] == "ok":
+            exp = "ok " + " ".join(str(0 if s is None else s + 1) for s in real[1])
+            msg = _sort_oracle(c, real[1])
+            if msg:
+                out.append({"kind": "monitor:" + msg, "instance": "_sort_gathered_items", "fixed": c, "real": real[1]})
+            if any(n is not None for n in c):
+                nontriv += 1
+        else:
+            exp = real[0]
+        ctx.cov.count("sort:" + real[0])
+        if a.strip() != exp.strip():
+            out.append({"kind": "correspondence", "instance": "_sort_gathered_items", "fixed": c, "real": exp, "model": a})
+    ctx.cov.add_cases("_sort_gathered_items (all lists len<=3 over {None,0..4} + random)", len(cases), nontriv,
+                      exhaustive=False)
+    # through AutoCSR.get_csrs(sort=True) on a real module
+    from migen import Module
+    from litex.soc.interconnect import csr
+    for _ in range(20):
+        L = rng.randint(1, 5)
+        fx = [rng.choice([None, rng.randint(0, L + 1)]) for _ in range(L)]
+
+        class M(Module, csr.AutoCSR):
+            pass
+        m = M()
+        objs = []
+        for k, n in enumerate(fx):
+            o = csr.CSRStorage(rng.choice((1, 9)), name="z%d" % (L - k), n=n)     # names anti-sorted: DUID order rules
+            setattr(m, "z%d" % (L - k), o)
+            objs.append(o)
+        try:
+            res = m.get_csrs(sort=True)
+            real = "ok " + " ".join(str(objs.index(x) + 1) if x in objs else "0" for x in res)
+        except ValueError:
+            real = "conflict"
+        except IndexError:
+            real = "indexerror"
+        a = ctx.lean.call("sort", *[0 if n is None else n + 1 for n in fx])
+        if a.strip() != real:
+            out.append({"kind": "correspondence", "instance": "AutoCSR.get_csrs(sort=True)", "fixed": fx,
+                        "real": real, "model": a})
+    ctx.cov.add_cases("AutoCSR.get_csrs(sort=True)", 20, 20)
+
+
+def correspond_fields(ctx, out, n_cases):
+    from litex.soc.interconnect import csr
+    rng = ctx.rng
+    cases = []
+    for _ in range(n_cases):
+        L = rng.randint(1, 5)
+        c = []
+        off = 0
+        for k in range(L):
+            size = rng.randint(1, 5)
+            o = None
+            x = rng.random()
+            if x < 0.35:
+                o = off + rng.randint(0, 3)
+            elif x < 0.5:
+                o = rng.randint(0, 12)
+            c.append((size, o, rng.getrandbits(size), size == 1 and rng.random() < 0.3))
+            off = (off if o is None else o) + size
+        cases.append(c)
+    lines = ["fields " + " ".join("%d %d %d %d" % (s, 0 if o is None else o + 1, r, int(p)) for (s, o, r, p) in c)
+             for c in cases]
+    ans = ctx.lean.call_batch(lines)
+    nontriv = 0
+    for c, a in zip(cases, ans):
+        fields = [csr.CSRField("f%d" % k, size=s, offset=o, reset=r, pulse=p) for k, (s, o, r, p) in enumerate(c)]
+        try:
+            st = csr.CSRStorage(fields=fields, name="x")
+            offs = [f.offset for f in fields]
+            real = "ok %d %d %s" % (st.size, st.storage.reset.value, " ".join(map(str, offs)))
+            # property: declared offsets are kept, fields do not overlap, automatic ones are packed
+            end = 0
+            for (s, o, r, p), fo in zip(c, offs):
+                if (o is not None and fo != o) or fo < end or (o is None and fo != end):
+                    out.append({"kind": "monitor:field offsets %r do not match declaration %r" % (offs, c),
+                                "instance": "CSRFieldAggregate", "fields": c})
+                    break
+                end = fo + s
+            nontriv += 1
+        except ValueError:
+            real = "rejected"
+            # property: rejected only when a declared offset lies below the end of the previous field
+            end, bad = 0, False
+            for (s, o, r, p) in c:
+                if o is not None and o < end:
+                    bad = True
+                    break
+                end = (end if o is None else o) + s
+            if not bad:
+                out.append({"kind": "monitor:non-overlapping field list rejected", "instance": "CSRFieldAggregate",
+                            "fields": c})
+        ctx.cov.count("fields:" + real.split()[0])
+        if a.strip() != real.strip():
+            out.append({"kind": "correspondence", "instance": "CSRFieldAggregate", "fields": c, "real": real, "model": a})
+    ctx.cov.add_cases("CSRFieldAggregate offsets/size/reset/overlap", len(cases), nontriv)
+
+
+def correspond_layout(ctx, out, n_cases):
+    """Simple-CSR order of the real GenericBank vs `simpleCsrs`, and `addrOf` vs the position found there."""
+    from litex.soc.interconnect import csr
+    rng = ctx.rng
+    n_ok = 0
+    for t in range(n_cases):
+        bw = rng.choice((8, 8, 16, 32, 64))
+        ordering = rng.choice(("big", "little"))
+        regs = random_regs(rng, bw, rng.randint(1, 6))
+        objs = [build_reg(r, "q%d_" % k) for k, r in enumerate(regs)]
+        bank = csr.GenericBank(objs, bw, ordering)
+        real = []
+        pos = {}
+        for a, sc in enumerate(bank.simple_csrs):
+            owner = next(k for k, o in enumerate(objs) if sc is o or sc in getattr(o, "simple_csrs", []))
+            r = regs[owner]
+            if r.kind == RAW:
+                word = 0
+            else:
+                suffix = sc.name[len("q%d_" % owner):]
+                word = int(suffix) if suffix else 0
+            nw = -(-r.eff_size() // bw)
+            lo = 0 if r.kind == RAW else word * bw
+            last = 1 if (r.kind == RAW or sc is objs[owner].simple_csrs[-1]) else 0
+            real += [owner, word, lo, sc.size, last]
+            pos[(owner, word)] = a
+        addrs = []
+        for k, r in enumerate(regs):
+            nw = 1 if r.kind == RAW else -(-r.eff_size() // bw)
+            addrs += [pos[(k, j)] for j in range(nw)]
+        exp = " ".join(map(str, real)) + " | " + " ".join(map(str, addrs))
+        a = ctx.lean.call("layout", bw, 0 if ordering == "big" else 1, lean_regs(regs))
+        if " ".join(a.split()) != " ".join(exp.split()):
+            out.append({"kind": "correspondence", "instance": "GenericBank layout", "bw": bw, "ordering": ordering,
+                        "regs": repr(regs), "real": exp, "model": a})
+        # property: no two words share an address, every register bit is in exactly one word
+        if len(set(addrs)) != len(addrs):
+            out.append({"kind": "monitor:two words share an address", "instance": "GenericBank layout",
+                        "regs": repr(regs)})
+        n_ok += 1
+    ctx.cov.add_cases("GenericBank simple-CSR layout / addrOf", n_cases, n_ok)
+
+
 def correspond(ctx):
-    ctx.jobs = jobs(ctx.tier)
+    ctx.jobs = jobs(ctx.tier, ctx.seed)
     dis, bad = run_jobs(ctx, ctx.jobs)
-    return dis
+    extra = []
+    quick = ctx.tier == "quick"
+    correspond_sort(ctx, extra, 300 if quick else 3000)
+    correspond_fields(ctx, extra, 300 if quick else 3000)
+    correspond_layout(ctx, extra, 60 if quick else 600)
+    ctx.modec = extra
+    return dis + extra
+
+
+# ---------------------------------------------------------------------------------------------------------
+
+def atomic_little_witness():
+    """16-bit atomic storage on an 8-bit bus, ordering little: software writes the two bytes in ascending address
+    order (0x34 to the low byte at address 0, 0x12 to the high byte at address 1).  Returns the trace of
+    `storage` after each write."""
+    inst = BankInst("probe/atomic-little", [S(16, atomic=True)], bw=8, ordering="little", paging=0x800, address=0)
+    n = inst.netlist
+    st = inst.objs[0]
+    vals = []
+    bus_write(n, inst.bus, 0, 0x34)
+    vals.append(n.getu(st.storage))
+    bus_write(n, inst.bus, 1, 0x12)
+    vals.append(n.getu(st.storage))
+    return vals
+
+
+def probes(ctx):
+    vals = atomic_little_witness()
+    # atomic: no intermediate value, and 0x1234 after the last (highest-address) word
+    fails = vals != [0x0000, 0x1234]
+    what = ("CSRStorage(16, atomic_write=True), 8-bit bus, ordering=little: ascending writes 0x34@0, 0x12@1 give storage "
+            "%s (atomic semantics require [0x0, 0x1234])" % [hex(v) for v in vals])
+    res = [(FINDING_ATOMIC_LITTLE, fails, what)]
+    # the same register with ordering=big must be fine (guards the probe itself)
+    inst = BankInst("probe/atomic-big", [S(16, atomic=True)], bw=8, ordering="big", paging=0x800, address=0)
+    n = inst.netlist
+    st = inst.objs[0]
+    v = []
+    bus_write(n, inst.bus, 0, 0x12); v.append(n.getu(st.storage))
+    bus_write(n, inst.bus, 1, 0x34); v.append(n.getu(st.storage))
+    res.append(("C12-atomic-big-ordering", v != [0x0000, 0x1234],
+                "atomic 16-bit storage, ordering=big, ascending writes give %s" % [hex(x) for x in v]))
+    return res
 
 
 def search(ctx, disagreements, proof_info):
-    return generic_search(ctx, disagreements, getattr(ctx, "jobs", None) or jobs(ctx.tier), FMT)
+    for d in disagreements:
+        if isinstance(d, dict) and d.get("kind", "").startswith("monitor:"):
+            return {"instance": d["instance"], "input": {k: v for k, v in d.items() if k not in ("kind", "instance")},
+                    "monitor": d["kind"][8:]}
+    hw = [d for d in disagreements if not isinstance(d, dict)]
+    r = generic_search(ctx, hw, getattr(ctx, "jobs", None) or jobs(ctx.tier, ctx.seed), FMT)
+    if r:
+        return r
+    # Python-level code: re-run the direct property checks on fresh random inputs
+    extra = []
+
+    class _NoLean:
+        def call_batch(self, lines):
+            return [""] * len(lines)
+
+        def call(self, *a):
+            return ""
+    saved = ctx.lean
+    try:
+        ctx.lean = _NoLean()
+        correspond_sort(ctx, extra, 2000)
+        correspond_fields(ctx, extra, 2000)
+        correspond_layout(ctx, extra, 200)
+    except Exception:
+        pass
+    finally:
+        ctx.lean = saved
+    for d in extra:
+        if d.get("kind", "").startswith("monitor:"):
+            return {"instance": d["instance"], "input": {k: v for k, v in d.items() if k not in ("kind", "instance")},
+                    "monitor": d["kind"][8:]}
+    return None
 
 
 def replay(ctx, payload):
     from explore import generic_replay
-    return generic_replay(ctx, payload, jobs("thorough"))
+    fi = payload.get("failing_input") or {}
+    if "trace" in fi:
+        return generic_replay(ctx, payload, jobs("thorough", payload.get("seed", 0)) + jobs("quick", payload.get("seed", 0)))
+    inp = fi.get("input") or {}
+    if fi.get("instance") == "_sort_gathered_items":
+        real = _real_sort(inp["fixed"])
+        msg = _sort_oracle(inp["fixed"], real[1]) if real[0] == "ok" else None
+        print("fixed=%r -> %r" % (inp["fixed"], real))
+        if msg:
+            print(msg)
+            print("VIOLATION property=%s replay=(replayed)" % ctx.prop)
+            return 1
+        return 0
+    print("replay payload:", fi or payload.get("disagreements", [])[:3])
+    return 1 if fi else 2
